@@ -176,7 +176,7 @@ REGISTRY = {
                     "payloads with known / unknown / missing tag, extra keys, reordered keys) and a battery of TypedDict hooks built with renames / omissions and forbid_extra_keys "
                     "(valid payloads, extra keys, missing keys, bad values, non-mappings); every call is bracketed by a deep identity snapshot of the argument; non-trivial = every call; "
                     "distinct = sha1 of (operation, configuration, type, input)"},
-    "C16": {"props_file": "Props/C16.v", "files": CORE_CONV + ["Model/Preconf.v", "Model/PreconfSpec.v", "Proofs/ConvSound.v", "Proofs/ConvPrim.v", "Proofs/PreconfProofs.v", "Proofs/UnstructProofs.v", "Proofs/ClassRoundtrip.v", "Proofs/ConvRoundtrip.v", "Proofs/JsonRoundtrip.v", "Proofs/ConvCfg.v", "Props/C16.v"],
+    "C16": {"props_file": "Props/C16.v", "files": CORE_CONV + ["Model/Preconf.v", "Model/PreconfSpec.v", "Proofs/ConvSound.v", "Proofs/ConvPrim.v", "Proofs/PreconfProofs.v", "Proofs/UnstructProofs.v", "Proofs/ClassRoundtrip.v", "Proofs/ConvRoundtrip.v", "Proofs/JsonRoundtrip.v", "Proofs/YamlRoundtrip.v", "Proofs/ConvCfg.v", "Props/C16.v"],
             "run": (lambda v, b, tier: (hooks_checks.check_hooks(v, b.t1_summary), pre_checks.check_c16(v, 40 * SIZES[tier], conv_checks.flags_of(b.t1_summary)),
                                copyopt_checks.preconf_copy_battery(v, pre_checks.FORMATS, 30 * SIZES[tier]))), "t1_sections": T1_CONV,
             "rule": "worlds as in the CONV lane with datetime / date leaves, no Any / untyped positions; per world 4 types x 2 values x every importable format (json, pyyaml, msgspec): "
